@@ -3,25 +3,33 @@
 // include!d below.  This file supplies std-only stand-ins for what those items import from other
 // crates, and a main() that feeds them the fields of the messages the station published.
 //
-//   stdin : one message per line, 7 tab-separated fields  phantom client timeout op dst src proto
-//           "-" = field absent, strings as "x<hex of utf8>", numbers in decimal (enums by number)
-//   stdout: one JSON object per line (see main)
-#![allow(non_upper_case_globals, non_snake_case, dead_code, unused_imports, unused_macros)]
+//   default mode   stdin : one message per line, 7 tab-separated fields  phantom client timeout op dst src proto
+//                          "-" = field absent, strings as "x<hex of utf8>", numbers in decimal (enums by number)
+//                  stdout: one JSON object per line (see main)
+//   --history      stdin : timed scripts against one real SessionTracker (see run_history)
+//   --pubsub       stdin : one script for the real ingest_from_pubsub loop over a scripted redis connection
+//   --selftest     runs the crate's own unit tests of the handler that cut.rs contains
+#![allow(non_upper_case_globals, non_snake_case, dead_code, unused_imports, unused_macros, unused_mut)]
 
-use std::cell::RefCell;
-use std::collections::HashMap;
+use std::cell::{Cell, RefCell};
+use std::collections::{HashMap, VecDeque};
 use std::convert::From;
 use std::fmt;
 use std::io::{self, BufRead, Write};
 use std::net::IpAddr;
-use std::sync::{Arc, RwLock};
+use std::sync::{Arc, Mutex, RwLock};
+use std::thread;
+use std::time;
 
 // ---------------------------------------------------------------- stand-ins
 thread_local! { static LOG: RefCell<Vec<String>> = RefCell::new(Vec::new()); }
 macro_rules! debug { ($($a:tt)*) => { LOG.with(|l| l.borrow_mut().push(format!($($a)*))) } }
 
+// util::precise_time_ns: the detector's clock is an input of every scenario
 pub const NOW: u128 = 1_000_000_000_000;
-fn precise_time_ns() -> u128 { NOW }
+static CLOCK: Mutex<u128> = Mutex::new(NOW);
+fn precise_time_ns() -> u128 { *CLOCK.lock().unwrap() }
+fn set_clock(t: u128) { *CLOCK.lock().unwrap() = t; }
 
 // pnet::packet::ip
 #[derive(Clone, Copy, Debug, PartialEq, Eq, Hash)]
@@ -78,6 +86,68 @@ impl StationToDetector {
     pub fn set_operation(&mut self, v: StationOperations) { self.operation = Some(v as i32); }
 }
 
+// protobuf::Message: the payloads of the scripted redis connection are the 7-field text lines
+pub trait Message: Sized {
+    fn parse_from_bytes(b: &[u8]) -> Result<Self, String>;
+}
+impl Message for StationToDetector {
+    fn parse_from_bytes(b: &[u8]) -> Result<Self, String> {
+        let line = String::from_utf8_lossy(b).into_owned();
+        if line.starts_with('!') { return Err("scripted wire error".to_string()); }
+        parse_fields(&line).ok_or_else(|| "bad field count".to_string())
+    }
+}
+
+// the redis crate, as far as sessions.rs uses it: a connection whose pubsub yields a script
+static SCRIPT: Mutex<VecDeque<String>> = Mutex::new(VecDeque::new());
+static SUBSCRIBED: Mutex<Vec<String>> = Mutex::new(Vec::new());
+static PUBSUB_MAP: Mutex<Option<Arc<RwLock<HashMap<String, u128>>>>> = Mutex::new(None);
+pub mod redis {
+    pub struct Client;
+    pub struct Connection;
+    pub struct PubSub;
+    pub struct Msg(pub Option<Vec<u8>>);
+    impl Client {
+        pub fn open(_url: &str) -> Result<Client, String> { Ok(Client) }
+        pub fn get_connection(&self) -> Result<Connection, String> { Ok(Connection) }
+    }
+    impl Connection {
+        pub fn as_pubsub(&mut self) -> PubSub { PubSub }
+    }
+    impl PubSub {
+        pub fn subscribe(&mut self, ch: &str) -> Result<(), String> {
+            super::SUBSCRIBED.lock().unwrap().push(ch.to_string());
+            Ok(())
+        }
+        // script lines:  T <ns> (advance the clock)  E (receive error)  Y (message without a readable payload)
+        //                B (payload that does not decode)  M <7 fields> (a message)
+        pub fn get_message(&mut self) -> Result<Msg, String> {
+            loop {
+                let next = super::SCRIPT.lock().unwrap().pop_front();
+                match next {
+                    None => super::finish_pubsub(),
+                    Some(l) => {
+                        let (k, rest) = (l.chars().next().unwrap_or(' '), if l.len() > 2 { l[2..].to_string() } else { String::new() });
+                        match k {
+                            'T' => super::set_clock(rest.trim().parse().unwrap()),
+                            'E' => return Err("scripted receive error".to_string()),
+                            'Y' => return Ok(Msg(None)),
+                            'B' => return Ok(Msg(Some(b"!garbage".to_vec()))),
+                            'M' => return Ok(Msg(Some(rest.into_bytes()))),
+                            _ => {}
+                        }
+                    }
+                }
+            }
+        }
+    }
+    impl Msg {
+        pub fn get_payload(&self) -> Result<Vec<u8>, String> {
+            match &self.0 { Some(v) => Ok(v.clone()), None => Err("scripted payload error".to_string()) }
+        }
+    }
+}
+
 // ---------------------------------------------------------------- the real code
 include!("cut.rs");
 
@@ -89,6 +159,15 @@ fn unhex(s: &str) -> String {
 fn hex(s: &str) -> String { s.bytes().map(|b| format!("{:02x}", b)).collect() }
 fn opt_s(f: &str) -> Option<String> { if f == "-" { None } else { Some(unhex(&f[1..])) } }
 fn opt_n<T: std::str::FromStr>(f: &str) -> Option<T> { if f == "-" { None } else { f.parse().ok() } }
+
+fn parse_fields(line: &str) -> Option<StationToDetector> {
+    let f: Vec<&str> = line.split('\t').collect();
+    if f.len() != 7 { return None; }
+    Some(StationToDetector {
+        phantom_ip: opt_s(f[0]), client_ip: opt_s(f[1]), timeout_ns: opt_n(f[2]), operation: opt_n(f[3]),
+        dst_port: opt_n(f[4]), src_port: opt_n(f[5]), proto: opt_n(f[6]),
+    })
+}
 
 fn ipj(a: &IpAddr) -> String {
     match a {
@@ -109,9 +188,63 @@ fn mapj(m: &Arc<RwLock<HashMap<String, u128>>>) -> String {
 }
 
 const SENTINEL: &str = "~other-session";
-
 // constant of the crate's test module, used by the unit tests cut.rs may contain
 const S2NS_U64: u64 = 1000 * 1000 * 1000;
+
+// One real SessionTracker driven by a timed script; one JSON line per command.
+//   R            new tracker             T <ns>        set the clock
+//   M <fields>   pubsub_handle_s2d       A <fields>    add_session (conversion first; no-op if it fails)
+//   P <fields>   update_session on the flow the message describes      Q <fields>  is_tracked_session
+//   S            drop_stale_sessions
+// every answer carries the tag of the message's session (if it converts), an auxiliary number
+// (dropped count / tracked) and the table after the command
+fn run_history() {
+    let stdin = io::stdin();
+    let out = io::stdout();
+    let mut out = out.lock();
+    let mut st = SessionTracker::new();
+    for line in stdin.lock().lines() {
+        let line = line.unwrap();
+        if line.is_empty() { continue; }
+        let k = line.chars().next().unwrap();
+        let rest = if line.len() > 2 { &line[2..] } else { "" };
+        let mut aux: i64 = -1;
+        let mut tag = String::new();
+        let s2d = parse_fields(rest);
+        let sd = match &s2d { Some(m) => SessionResult::from(m).ok(), None => None };
+        if let Some(d) = &sd { tag = hex(&d.tag()); }
+        match k {
+            'R' => { st = SessionTracker::new(); set_clock(NOW); }
+            'T' => set_clock(rest.trim().parse().unwrap()),
+            'M' => if let Some(m) = &s2d { pubsub_handle_s2d(&st.tracked_sessions, m) },
+            'A' => if let Some(d) = sd { st.add_session(d) },
+            'P' => if let Some(d) = &sd { st.update_session(d) },
+            'Q' => if let Some(d) = &sd { aux = st.is_tracked_session(d) as i64 },
+            'S' => aux = st.drop_stale_sessions() as i64,
+            _ => {}
+        }
+        writeln!(out, "{{\"tag\":\"{}\",\"aux\":{},\"len\":{},\"map\":{}}}", tag, aux, st.len(), mapj(&st.tracked_sessions)).unwrap();
+    }
+}
+
+// the real ingest_from_pubsub never returns: the scripted connection ends the process when the script is exhausted
+fn finish_pubsub() -> ! {
+    let m = PUBSUB_MAP.lock().unwrap().clone().unwrap();
+    let subs: Vec<String> = SUBSCRIBED.lock().unwrap().iter().map(|s| format!("\"{}\"", s)).collect();
+    let logs: Vec<String> = LOG.with(|l| l.borrow().iter().map(|s| format!("\"{}\"", hex(s))).collect());
+    println!("{{\"subscribed\":[{}],\"map\":{},\"log\":[{}]}}", subs.join(","), mapj(&m), logs.join(","));
+    std::process::exit(0);
+}
+fn run_pubsub() {
+    let stdin = io::stdin();
+    for line in stdin.lock().lines() {
+        let line = line.unwrap();
+        if !line.is_empty() { SCRIPT.lock().unwrap().push_back(line); }
+    }
+    let m: Arc<RwLock<HashMap<String, u128>>> = Arc::new(RwLock::new(HashMap::new()));
+    *PUBSUB_MAP.lock().unwrap() = Some(Arc::clone(&m));
+    ingest_from_pubsub(m)
+}
 
 fn main() {
     if std::env::args().any(|a| a == "--selftest") {
@@ -120,17 +253,17 @@ fn main() {
         println!("selftests run: {}", n);
         return;
     }
+    if std::env::args().any(|a| a == "--history") { return run_history(); }
+    if std::env::args().any(|a| a == "--pubsub") { return run_pubsub(); }
     let stdin = io::stdin();
     let out = io::stdout();
     let mut out = out.lock();
     for line in stdin.lock().lines() {
         let line = line.unwrap();
         if line.is_empty() { continue; }
-        let f: Vec<&str> = line.split('\t').collect();
-        if f.len() != 7 { writeln!(out, "{{\"bad_line\":true}}").unwrap(); continue; }
-        let s2d = StationToDetector {
-            phantom_ip: opt_s(f[0]), client_ip: opt_s(f[1]), timeout_ns: opt_n(f[2]), operation: opt_n(f[3]),
-            dst_port: opt_n(f[4]), src_port: opt_n(f[5]), proto: opt_n(f[6]),
+        let s2d = match parse_fields(&line) {
+            Some(m) => m,
+            None => { writeln!(out, "{{\"bad_line\":true}}").unwrap(); continue; }
         };
         // what the detector's address parser makes of the two texts
         let pc = classj(s2d.phantom_ip());
